@@ -6,6 +6,10 @@
 //! every field the constraints read) are symbolic.  Owner = program id (resp. a token program) and the Anchor
 //! discriminator of the *typed* accounts are fixed to the values every account created by the program has
 //! (validity predicate of the account type, not part of this property).
+//!
+//! Not run through `try_accounts` (listed in the report): `InitializeReward` (8 accounts, token-account `init`: does not finish
+//! in 900 s) and `InitializePoolWithAdaptiveFee` (16 accounts, two `init` PDAs); for the latter only the predicate of its
+//! `initialize_pool_authority` constraint is decided (`c04_initialize_pool_authority_rule`).
 use crate::common::*;
 use anchor_lang::prelude::*;
 use anchor_lang::Discriminator;
@@ -82,7 +86,7 @@ fn oracle_data() -> [u8; Oracle::LEN] {
     typed_data::<{ Oracle::LEN }, { Oracle::LEN - 8 - 128 }>(Oracle::DISCRIMINATOR)
 }
 
-/// `Whirlpool` account data: discriminator, symbolic config back-reference, tick spacing / fee-tier index,
+/// `Whirlpool` account data: discriminator, symbolic config back-reference, tick spacing / fee-tier index, fee rates,
 /// reward authority (reward_infos[0].extension), extension segments of reward 1 and 2, the three reward
 /// mints / vaults; all other (numeric) fields zero.
 fn whirlpool_data() -> [u8; Whirlpool::LEN] {
@@ -90,8 +94,8 @@ fn whirlpool_data() -> [u8; Whirlpool::LEN] {
     d[..8].copy_from_slice(Whirlpool::DISCRIMINATOR);
     let cfg: [u8; 32] = kani::any();
     d[WP_CONFIG..WP_CONFIG + 32].copy_from_slice(&cfg);
-    let ts: [u8; 4] = kani::any();
-    d[WP_TICK_SPACING..WP_TICK_SPACING + 4].copy_from_slice(&ts);
+    let ts: [u8; 8] = kani::any(); // tick_spacing, fee_tier_index_seed, fee_rate, protocol_fee_rate
+    d[WP_TICK_SPACING..WP_TICK_SPACING + 8].copy_from_slice(&ts);
     let mut i = 0;
     while i < 3 {
         let v: [u8; 96] = kani::any(); // mint, vault, extension
@@ -130,6 +134,8 @@ macro_rules! try_accounts {
 #[kani::stub(alloc::fmt::format, stub_format)]
 #[kani::stub(<anchor_lang::error::Error as core::convert::From<anchor_lang::error::ErrorCode>>::from, stub_err_from_anchor_code)]
 #[kani::stub(<anchor_lang::error::Error as core::convert::From<::whirlpool::errors::ErrorCode>>::from, stub_err_from_code)]
+#[kani::stub(<anchor_lang::prelude::Pubkey as core::fmt::Display>::fmt, stub_pubkey_display)]
+#[kani::stub(anchor_lang::error::Error::with_account_name, stub_with_account_name)]
 fn c04_set_fee_rate() {
     let mut cfg_d = config_data();
     let stored = k32(&cfg_d, CFG_FEE_AUTH);
@@ -158,6 +164,8 @@ fn c04_set_fee_rate() {
 #[kani::stub(alloc::fmt::format, stub_format)]
 #[kani::stub(<anchor_lang::error::Error as core::convert::From<anchor_lang::error::ErrorCode>>::from, stub_err_from_anchor_code)]
 #[kani::stub(<anchor_lang::error::Error as core::convert::From<::whirlpool::errors::ErrorCode>>::from, stub_err_from_code)]
+#[kani::stub(<anchor_lang::prelude::Pubkey as core::fmt::Display>::fmt, stub_pubkey_display)]
+#[kani::stub(anchor_lang::error::Error::with_account_name, stub_with_account_name)]
 fn c04_set_protocol_fee_rate() {
     let mut cfg_d = config_data();
     let stored = k32(&cfg_d, CFG_FEE_AUTH);
@@ -186,6 +194,8 @@ fn c04_set_protocol_fee_rate() {
 #[kani::stub(alloc::fmt::format, stub_format)]
 #[kani::stub(<anchor_lang::error::Error as core::convert::From<anchor_lang::error::ErrorCode>>::from, stub_err_from_anchor_code)]
 #[kani::stub(<anchor_lang::error::Error as core::convert::From<::whirlpool::errors::ErrorCode>>::from, stub_err_from_code)]
+#[kani::stub(<anchor_lang::prelude::Pubkey as core::fmt::Display>::fmt, stub_pubkey_display)]
+#[kani::stub(anchor_lang::error::Error::with_account_name, stub_with_account_name)]
 fn c04_set_default_fee_rate() {
     let mut cfg_d = config_data();
     let stored = k32(&cfg_d, CFG_FEE_AUTH);
@@ -214,6 +224,8 @@ fn c04_set_default_fee_rate() {
 #[kani::stub(alloc::fmt::format, stub_format)]
 #[kani::stub(<anchor_lang::error::Error as core::convert::From<anchor_lang::error::ErrorCode>>::from, stub_err_from_anchor_code)]
 #[kani::stub(<anchor_lang::error::Error as core::convert::From<::whirlpool::errors::ErrorCode>>::from, stub_err_from_code)]
+#[kani::stub(<anchor_lang::prelude::Pubkey as core::fmt::Display>::fmt, stub_pubkey_display)]
+#[kani::stub(anchor_lang::error::Error::with_account_name, stub_with_account_name)]
 fn c04_set_default_protocol_fee_rate() {
     let mut cfg_d = config_data();
     let stored = k32(&cfg_d, CFG_FEE_AUTH);
@@ -238,6 +250,8 @@ fn c04_set_default_protocol_fee_rate() {
 #[kani::stub(alloc::fmt::format, stub_format)]
 #[kani::stub(<anchor_lang::error::Error as core::convert::From<anchor_lang::error::ErrorCode>>::from, stub_err_from_anchor_code)]
 #[kani::stub(<anchor_lang::error::Error as core::convert::From<::whirlpool::errors::ErrorCode>>::from, stub_err_from_code)]
+#[kani::stub(<anchor_lang::prelude::Pubkey as core::fmt::Display>::fmt, stub_pubkey_display)]
+#[kani::stub(anchor_lang::error::Error::with_account_name, stub_with_account_name)]
 fn c04_set_fee_authority() {
     let mut cfg_d = config_data();
     let stored = k32(&cfg_d, CFG_FEE_AUTH);
@@ -264,6 +278,8 @@ fn c04_set_fee_authority() {
 #[kani::stub(alloc::fmt::format, stub_format)]
 #[kani::stub(<anchor_lang::error::Error as core::convert::From<anchor_lang::error::ErrorCode>>::from, stub_err_from_anchor_code)]
 #[kani::stub(<anchor_lang::error::Error as core::convert::From<::whirlpool::errors::ErrorCode>>::from, stub_err_from_code)]
+#[kani::stub(<anchor_lang::prelude::Pubkey as core::fmt::Display>::fmt, stub_pubkey_display)]
+#[kani::stub(anchor_lang::error::Error::with_account_name, stub_with_account_name)]
 fn c04_set_collect_protocol_fees_authority() {
     let mut cfg_d = config_data();
     let stored = k32(&cfg_d, CFG_CPF_AUTH);
@@ -290,6 +306,8 @@ fn c04_set_collect_protocol_fees_authority() {
 #[kani::stub(alloc::fmt::format, stub_format)]
 #[kani::stub(<anchor_lang::error::Error as core::convert::From<anchor_lang::error::ErrorCode>>::from, stub_err_from_anchor_code)]
 #[kani::stub(<anchor_lang::error::Error as core::convert::From<::whirlpool::errors::ErrorCode>>::from, stub_err_from_code)]
+#[kani::stub(<anchor_lang::prelude::Pubkey as core::fmt::Display>::fmt, stub_pubkey_display)]
+#[kani::stub(anchor_lang::error::Error::with_account_name, stub_with_account_name)]
 fn c04_set_reward_emissions_super_authority() {
     let mut cfg_d = config_data();
     let stored = k32(&cfg_d, CFG_SUPER_AUTH);
@@ -316,6 +334,8 @@ fn c04_set_reward_emissions_super_authority() {
 #[kani::stub(alloc::fmt::format, stub_format)]
 #[kani::stub(<anchor_lang::error::Error as core::convert::From<anchor_lang::error::ErrorCode>>::from, stub_err_from_anchor_code)]
 #[kani::stub(<anchor_lang::error::Error as core::convert::From<::whirlpool::errors::ErrorCode>>::from, stub_err_from_code)]
+#[kani::stub(<anchor_lang::prelude::Pubkey as core::fmt::Display>::fmt, stub_pubkey_display)]
+#[kani::stub(anchor_lang::error::Error::with_account_name, stub_with_account_name)]
 fn c04_set_reward_authority() {
     let mut wp_d = whirlpool_data();
     let stored = k32(&wp_d, WP_REWARD_AUTH);
@@ -342,6 +362,8 @@ fn c04_set_reward_authority() {
 #[kani::stub(alloc::fmt::format, stub_format)]
 #[kani::stub(<anchor_lang::error::Error as core::convert::From<anchor_lang::error::ErrorCode>>::from, stub_err_from_anchor_code)]
 #[kani::stub(<anchor_lang::error::Error as core::convert::From<::whirlpool::errors::ErrorCode>>::from, stub_err_from_code)]
+#[kani::stub(<anchor_lang::prelude::Pubkey as core::fmt::Display>::fmt, stub_pubkey_display)]
+#[kani::stub(anchor_lang::error::Error::with_account_name, stub_with_account_name)]
 fn c04_set_reward_authority_by_super_authority() {
     let mut cfg_d = config_data();
     let stored = k32(&cfg_d, CFG_SUPER_AUTH);
@@ -367,12 +389,14 @@ fn c04_set_reward_authority_by_super_authority() {
 }
 
 /// set_reward_emissions: Ok => reward_authority signed, key == whirlpool.reward_authority(), vault key == whirlpool.reward_infos[reward_index].vault. vault owned by the Token program, all 165 bytes symbolic. reward_index >= 3 is excluded: the constraint indexes a [_; 3] and panics (= the transaction aborts), which Kani would report as a failure
-// @verif prop=C04,C15 tier=quick timeout=300
+// @verif prop=C04,C15 tier=thorough timeout=900
 #[kani::proof]
 #[kani::unwind(40)]
 #[kani::stub(alloc::fmt::format, stub_format)]
 #[kani::stub(<anchor_lang::error::Error as core::convert::From<anchor_lang::error::ErrorCode>>::from, stub_err_from_anchor_code)]
 #[kani::stub(<anchor_lang::error::Error as core::convert::From<::whirlpool::errors::ErrorCode>>::from, stub_err_from_code)]
+#[kani::stub(<anchor_lang::prelude::Pubkey as core::fmt::Display>::fmt, stub_pubkey_display)]
+#[kani::stub(anchor_lang::error::Error::with_account_name, stub_with_account_name)]
 fn c04_set_reward_emissions() {
     let mut wp_d = whirlpool_data();
     let stored = k32(&wp_d, WP_REWARD_AUTH);
@@ -397,12 +421,14 @@ fn c04_set_reward_emissions() {
 }
 
 /// set_reward_emissions_v2: Ok => reward_authority signed, key == whirlpool.reward_authority(), vault key == whirlpool.reward_infos[reward_index].vault. vault owned by Token or Token-2022, 165 bytes (no account extensions), all 165 bytes symbolic. reward_index >= 3 is excluded: the constraint indexes a [_; 3] and panics (= the transaction aborts), which Kani would report as a failure
-// @verif prop=C04,C15 tier=quick timeout=300
+// @verif prop=C04,C15 tier=thorough timeout=900
 #[kani::proof]
 #[kani::unwind(40)]
 #[kani::stub(alloc::fmt::format, stub_format)]
 #[kani::stub(<anchor_lang::error::Error as core::convert::From<anchor_lang::error::ErrorCode>>::from, stub_err_from_anchor_code)]
 #[kani::stub(<anchor_lang::error::Error as core::convert::From<::whirlpool::errors::ErrorCode>>::from, stub_err_from_code)]
+#[kani::stub(<anchor_lang::prelude::Pubkey as core::fmt::Display>::fmt, stub_pubkey_display)]
+#[kani::stub(anchor_lang::error::Error::with_account_name, stub_with_account_name)]
 fn c04_set_reward_emissions_v2() {
     let mut wp_d = whirlpool_data();
     let stored = k32(&wp_d, WP_REWARD_AUTH);
@@ -433,6 +459,8 @@ fn c04_set_reward_emissions_v2() {
 #[kani::stub(alloc::fmt::format, stub_format)]
 #[kani::stub(<anchor_lang::error::Error as core::convert::From<anchor_lang::error::ErrorCode>>::from, stub_err_from_anchor_code)]
 #[kani::stub(<anchor_lang::error::Error as core::convert::From<::whirlpool::errors::ErrorCode>>::from, stub_err_from_code)]
+#[kani::stub(<anchor_lang::prelude::Pubkey as core::fmt::Display>::fmt, stub_pubkey_display)]
+#[kani::stub(anchor_lang::error::Error::with_account_name, stub_with_account_name)]
 fn c04_set_default_base_fee_rate() {
     let mut cfg_d = config_data();
     let stored = k32(&cfg_d, CFG_FEE_AUTH);
@@ -461,6 +489,8 @@ fn c04_set_default_base_fee_rate() {
 #[kani::stub(alloc::fmt::format, stub_format)]
 #[kani::stub(<anchor_lang::error::Error as core::convert::From<anchor_lang::error::ErrorCode>>::from, stub_err_from_anchor_code)]
 #[kani::stub(<anchor_lang::error::Error as core::convert::From<::whirlpool::errors::ErrorCode>>::from, stub_err_from_code)]
+#[kani::stub(<anchor_lang::prelude::Pubkey as core::fmt::Display>::fmt, stub_pubkey_display)]
+#[kani::stub(anchor_lang::error::Error::with_account_name, stub_with_account_name)]
 fn c04_set_preset_adaptive_fee_constants() {
     let mut cfg_d = config_data();
     let stored = k32(&cfg_d, CFG_FEE_AUTH);
@@ -489,6 +519,8 @@ fn c04_set_preset_adaptive_fee_constants() {
 #[kani::stub(alloc::fmt::format, stub_format)]
 #[kani::stub(<anchor_lang::error::Error as core::convert::From<anchor_lang::error::ErrorCode>>::from, stub_err_from_anchor_code)]
 #[kani::stub(<anchor_lang::error::Error as core::convert::From<::whirlpool::errors::ErrorCode>>::from, stub_err_from_code)]
+#[kani::stub(<anchor_lang::prelude::Pubkey as core::fmt::Display>::fmt, stub_pubkey_display)]
+#[kani::stub(anchor_lang::error::Error::with_account_name, stub_with_account_name)]
 fn c04_set_delegated_fee_authority() {
     let mut cfg_d = config_data();
     let stored = k32(&cfg_d, CFG_FEE_AUTH);
@@ -519,6 +551,8 @@ fn c04_set_delegated_fee_authority() {
 #[kani::stub(alloc::fmt::format, stub_format)]
 #[kani::stub(<anchor_lang::error::Error as core::convert::From<anchor_lang::error::ErrorCode>>::from, stub_err_from_anchor_code)]
 #[kani::stub(<anchor_lang::error::Error as core::convert::From<::whirlpool::errors::ErrorCode>>::from, stub_err_from_code)]
+#[kani::stub(<anchor_lang::prelude::Pubkey as core::fmt::Display>::fmt, stub_pubkey_display)]
+#[kani::stub(anchor_lang::error::Error::with_account_name, stub_with_account_name)]
 fn c04_set_initialize_pool_authority() {
     let mut cfg_d = config_data();
     let stored = k32(&cfg_d, CFG_FEE_AUTH);
@@ -549,6 +583,8 @@ fn c04_set_initialize_pool_authority() {
 #[kani::stub(alloc::fmt::format, stub_format)]
 #[kani::stub(<anchor_lang::error::Error as core::convert::From<anchor_lang::error::ErrorCode>>::from, stub_err_from_anchor_code)]
 #[kani::stub(<anchor_lang::error::Error as core::convert::From<::whirlpool::errors::ErrorCode>>::from, stub_err_from_code)]
+#[kani::stub(<anchor_lang::prelude::Pubkey as core::fmt::Display>::fmt, stub_pubkey_display)]
+#[kani::stub(anchor_lang::error::Error::with_account_name, stub_with_account_name)]
 fn c04_set_fee_rate_by_delegated_fee_authority() {
     let mut wp_d = whirlpool_data();
     let wp_cfg = k32(&wp_d, WP_CONFIG);
@@ -577,12 +613,14 @@ fn c04_set_fee_rate_by_delegated_fee_authority() {
 }
 
 /// set_adaptive_fee_constants: Ok => fee_authority signed, key == config.fee_authority, whirlpool.whirlpools_config == config key, oracle.whirlpool == whirlpool key
-// @verif prop=C04,C15 tier=quick timeout=300
+// @verif prop=C04,C15 tier=thorough timeout=900
 #[kani::proof]
 #[kani::unwind(40)]
 #[kani::stub(alloc::fmt::format, stub_format)]
 #[kani::stub(<anchor_lang::error::Error as core::convert::From<anchor_lang::error::ErrorCode>>::from, stub_err_from_anchor_code)]
 #[kani::stub(<anchor_lang::error::Error as core::convert::From<::whirlpool::errors::ErrorCode>>::from, stub_err_from_code)]
+#[kani::stub(<anchor_lang::prelude::Pubkey as core::fmt::Display>::fmt, stub_pubkey_display)]
+#[kani::stub(anchor_lang::error::Error::with_account_name, stub_with_account_name)]
 fn c04_set_adaptive_fee_constants() {
     let mut wp_d = whirlpool_data();
     let wp_cfg = k32(&wp_d, WP_CONFIG);
@@ -615,6 +653,8 @@ fn c04_set_adaptive_fee_constants() {
 #[kani::stub(alloc::fmt::format, stub_format)]
 #[kani::stub(<anchor_lang::error::Error as core::convert::From<anchor_lang::error::ErrorCode>>::from, stub_err_from_anchor_code)]
 #[kani::stub(<anchor_lang::error::Error as core::convert::From<::whirlpool::errors::ErrorCode>>::from, stub_err_from_code)]
+#[kani::stub(<anchor_lang::prelude::Pubkey as core::fmt::Display>::fmt, stub_pubkey_display)]
+#[kani::stub(anchor_lang::error::Error::with_account_name, stub_with_account_name)]
 fn c04_set_config_feature_flag() {
     let mut cfg_d = config_data();
     let mut no_d = [0u8; 0];
@@ -639,6 +679,8 @@ fn c04_set_config_feature_flag() {
 #[kani::stub(alloc::fmt::format, stub_format)]
 #[kani::stub(<anchor_lang::error::Error as core::convert::From<anchor_lang::error::ErrorCode>>::from, stub_err_from_anchor_code)]
 #[kani::stub(<anchor_lang::error::Error as core::convert::From<::whirlpool::errors::ErrorCode>>::from, stub_err_from_code)]
+#[kani::stub(<anchor_lang::prelude::Pubkey as core::fmt::Display>::fmt, stub_pubkey_display)]
+#[kani::stub(anchor_lang::error::Error::with_account_name, stub_with_account_name)]
 fn c04_set_config_extension_authority() {
     let mut cfg_d = config_data();
     let mut ext_d = ext_data();
@@ -669,6 +711,8 @@ fn c04_set_config_extension_authority() {
 #[kani::stub(alloc::fmt::format, stub_format)]
 #[kani::stub(<anchor_lang::error::Error as core::convert::From<anchor_lang::error::ErrorCode>>::from, stub_err_from_anchor_code)]
 #[kani::stub(<anchor_lang::error::Error as core::convert::From<::whirlpool::errors::ErrorCode>>::from, stub_err_from_code)]
+#[kani::stub(<anchor_lang::prelude::Pubkey as core::fmt::Display>::fmt, stub_pubkey_display)]
+#[kani::stub(anchor_lang::error::Error::with_account_name, stub_with_account_name)]
 fn c04_set_token_badge_authority() {
     let mut cfg_d = config_data();
     let mut ext_d = ext_data();
@@ -699,6 +743,8 @@ fn c04_set_token_badge_authority() {
 #[kani::stub(alloc::fmt::format, stub_format)]
 #[kani::stub(<anchor_lang::error::Error as core::convert::From<anchor_lang::error::ErrorCode>>::from, stub_err_from_anchor_code)]
 #[kani::stub(<anchor_lang::error::Error as core::convert::From<::whirlpool::errors::ErrorCode>>::from, stub_err_from_code)]
+#[kani::stub(<anchor_lang::prelude::Pubkey as core::fmt::Display>::fmt, stub_pubkey_display)]
+#[kani::stub(anchor_lang::error::Error::with_account_name, stub_with_account_name)]
 fn c04_set_token_badge_attribute() {
     let mut cfg_d = config_data();
     let mut ext_d = ext_data();
@@ -735,6 +781,8 @@ fn c04_set_token_badge_attribute() {
 #[kani::stub(alloc::fmt::format, stub_format)]
 #[kani::stub(<anchor_lang::error::Error as core::convert::From<anchor_lang::error::ErrorCode>>::from, stub_err_from_anchor_code)]
 #[kani::stub(<anchor_lang::error::Error as core::convert::From<::whirlpool::errors::ErrorCode>>::from, stub_err_from_code)]
+#[kani::stub(<anchor_lang::prelude::Pubkey as core::fmt::Display>::fmt, stub_pubkey_display)]
+#[kani::stub(anchor_lang::error::Error::with_account_name, stub_with_account_name)]
 fn c04_twin_must_fail() {
     let mut cfg_d = config_data();
     let mut no_d = [0u8; 0];
@@ -745,4 +793,463 @@ fn c04_twin_must_fail() {
     let ok = r.is_ok();
     core::mem::forget(r);
     assert!(!ok, "twin: reachable Ok must be reported");
+}
+
+// ---------------------------------------------------------------------------------------------------------
+// `init` structs.  Anchor runs the `init` constraint (Rent::get, PDA derivation, System-program CPIs, then
+// `try_from_unchecked`) *before* the `address = ...` / `constraint = ...` checks of the other fields, so these
+// harnesses need a model of the CPI instead of stopping there:
+//  * `Rent::get`  -> `Ok(Rent::default())`
+//  * `anchor_lang::system_program::{create_account, transfer, allocate, assign}` -> nondeterministic Ok/Err; on Ok the
+//    System program's effect on the passed AccountInfos (lamports moved, owner assigned).  Signature / "account in use"
+//    checks of the System program are NOT modelled (the model accepts more than the real one: sound for `Ok => ...`).
+//    The to-be-created account is handed in with its final data length already (zero bytes), because a `&mut [u8]`
+//    cannot grow; the stubs assert that the requested space equals that length.
+//  * `Pubkey::find_program_address` -> `common::stub_find_program_address` (ideal-hash memo).
+use anchor_lang::system_program as sp;
+
+pub fn stub_rent_get() -> core::result::Result<Rent, ProgramError> {
+    Ok(Rent::default())
+}
+fn cpi_outcome() -> Result<()> {
+    if kani::any() {
+        Ok(())
+    } else {
+        Err(stub_err_from_anchor_code(anchor_lang::error::ErrorCode::AccountNotEnoughKeys))
+    }
+}
+fn move_lamports(from: &AccountInfo, to: &AccountInfo, lamports: u64) -> bool {
+    let f = from.lamports();
+    let t = to.lamports();
+    if f < lamports || t.checked_add(lamports).is_none() {
+        return false;
+    }
+    **from.lamports.borrow_mut() = f - lamports;
+    **to.lamports.borrow_mut() = t + lamports;
+    true
+}
+pub fn stub_sp_create_account<'info>(
+    ctx: CpiContext<'_, '_, '_, 'info, sp::CreateAccount<'info>>,
+    lamports: u64,
+    space: u64,
+    owner: &Pubkey,
+) -> Result<()> {
+    cpi_outcome()?;
+    assert!(ctx.accounts.to.data_len() as u64 == space, "cpi model: account pre-sized by the harness");
+    if !move_lamports(&ctx.accounts.from, &ctx.accounts.to, lamports) {
+        return Err(stub_err_from_anchor_code(anchor_lang::error::ErrorCode::AccountNotEnoughKeys));
+    }
+    ctx.accounts.to.assign(owner);
+    Ok(())
+}
+pub fn stub_sp_transfer<'info>(ctx: CpiContext<'_, '_, '_, 'info, sp::Transfer<'info>>, lamports: u64) -> Result<()> {
+    cpi_outcome()?;
+    if !move_lamports(&ctx.accounts.from, &ctx.accounts.to, lamports) {
+        return Err(stub_err_from_anchor_code(anchor_lang::error::ErrorCode::AccountNotEnoughKeys));
+    }
+    Ok(())
+}
+pub fn stub_sp_allocate<'info>(ctx: CpiContext<'_, '_, '_, 'info, sp::Allocate<'info>>, space: u64) -> Result<()> {
+    cpi_outcome()?;
+    assert!(ctx.accounts.account_to_allocate.data_len() as u64 == space, "cpi model: account pre-sized by the harness");
+    Ok(())
+}
+pub fn stub_sp_assign<'info>(ctx: CpiContext<'_, '_, '_, 'info, sp::Assign<'info>>, owner: &Pubkey) -> Result<()> {
+    cpi_outcome()?;
+    ctx.accounts.account_to_assign.assign(owner);
+    Ok(())
+}
+
+/// like `acct!` with a symbolic `executable` flag (program accounts)
+macro_rules! acct_x {
+    ($ai:ident, $key:ident, $signer:ident, $data:expr, $owner:expr) => {
+        let $key = any_key();
+        let $signer: bool = kani::any();
+        let writable: bool = kani::any();
+        let executable: bool = kani::any();
+        let mut lamports: u64 = kani::any();
+        let owner: Pubkey = $owner;
+        let $ai = AccountInfo::new(&$key, $signer, writable, &mut lamports, $data, &owner, executable, 0);
+    };
+}
+
+/// initialize_config: InitializeConfig::try_accounts (config `init` through the CPI model) Ok => funder signed and its key is one of auth::admin::ADMINS (default/localnet table)
+// @verif prop=C04 tier=thorough timeout=900
+#[kani::proof]
+#[kani::unwind(40)]
+#[kani::stub(alloc::fmt::format, stub_format)]
+#[kani::stub(<anchor_lang::error::Error as core::convert::From<anchor_lang::error::ErrorCode>>::from, stub_err_from_anchor_code)]
+#[kani::stub(<anchor_lang::error::Error as core::convert::From<::whirlpool::errors::ErrorCode>>::from, stub_err_from_code)]
+#[kani::stub(<anchor_lang::prelude::Pubkey as core::fmt::Display>::fmt, stub_pubkey_display)]
+#[kani::stub(anchor_lang::error::Error::with_account_name, stub_with_account_name)]
+#[kani::stub(<anchor_lang::prelude::Rent as anchor_lang::solana_program::sysvar::Sysvar>::get, stub_rent_get)]
+#[kani::stub(anchor_lang::system_program::create_account, stub_sp_create_account)]
+#[kani::stub(anchor_lang::system_program::transfer, stub_sp_transfer)]
+#[kani::stub(anchor_lang::system_program::allocate, stub_sp_allocate)]
+#[kani::stub(anchor_lang::system_program::assign, stub_sp_assign)]
+fn c04_initialize_config() {
+    let mut cfg_d = [0u8; WhirlpoolsConfig::LEN];
+    let mut no_d = [0u8; 0];
+    let mut no_d2 = [0u8; 0];
+    acct!(cfg_ai, cfg_key, cfg_s, &mut cfg_d, any_key());
+    acct!(fund_ai, fund_key, fund_s, &mut no_d, any_key());
+    acct_x!(sys_ai, sys_key, sys_s, &mut no_d2, any_key());
+    let accounts = [cfg_ai, fund_ai, sys_ai];
+    let r = try_accounts!(InitializeConfig, accounts, &[]);
+    kani::cover!(r.is_ok(), "ok reachable");
+    kani::cover!(r.is_err(), "err reachable");
+    if r.is_ok() {
+        assert!(fund_s, "funder signed");
+        let admins = ::whirlpool::auth::admin::ADMINS;
+        assert!(fund_key == admins[0] || fund_key == admins[1], "funder is an admin key");
+    }
+    core::mem::forget(r);
+}
+
+/// initialize_fee_tier: InitializeFeeTier::try_accounts (init through the CPI / PDA model) Ok => fee_authority signed, key == config.fee_authority, fee_tier key == PDA(["fee_tier", config, tick_spacing le]) of the passed config
+// @verif prop=C04,C15 tier=thorough timeout=900
+#[kani::proof]
+#[kani::unwind(40)]
+#[kani::stub(alloc::fmt::format, stub_format)]
+#[kani::stub(<anchor_lang::error::Error as core::convert::From<anchor_lang::error::ErrorCode>>::from, stub_err_from_anchor_code)]
+#[kani::stub(<anchor_lang::error::Error as core::convert::From<::whirlpool::errors::ErrorCode>>::from, stub_err_from_code)]
+#[kani::stub(<anchor_lang::prelude::Pubkey as core::fmt::Display>::fmt, stub_pubkey_display)]
+#[kani::stub(anchor_lang::error::Error::with_account_name, stub_with_account_name)]
+#[kani::stub(<anchor_lang::prelude::Rent as anchor_lang::solana_program::sysvar::Sysvar>::get, stub_rent_get)]
+#[kani::stub(anchor_lang::system_program::create_account, stub_sp_create_account)]
+#[kani::stub(anchor_lang::system_program::transfer, stub_sp_transfer)]
+#[kani::stub(anchor_lang::system_program::allocate, stub_sp_allocate)]
+#[kani::stub(anchor_lang::system_program::assign, stub_sp_assign)]
+#[kani::stub(anchor_lang::prelude::Pubkey::find_program_address, stub_find_program_address)]
+fn c04_initialize_fee_tier() {
+    let mut cfg_d = config_data();
+    let stored = k32(&cfg_d, CFG_FEE_AUTH);
+    let mut new_d = [0u8; FeeTier::LEN];
+    let ix: [u8; 2] = kani::any();
+    let mut no_d = [0u8; 0];
+    let mut no_d2 = [0u8; 0];
+    let mut no_d3 = [0u8; 0];
+    acct!(cfg_ai, cfg_key, cfg_s, &mut cfg_d, PID);
+    acct!(new_ai, new_key, new_s, &mut new_d, any_key());
+    acct!(fund_ai, fund_key, fund_s, &mut no_d, any_key());
+    acct!(auth_ai, auth_key, auth_s, &mut no_d2, any_key());
+    acct_x!(sys_ai, sys_key, sys_s, &mut no_d3, any_key());
+    let accounts = [cfg_ai, new_ai, fund_ai, auth_ai, sys_ai];
+    let r = try_accounts!(InitializeFeeTier, accounts, &ix);
+    kani::cover!(r.is_ok(), "ok reachable");
+    kani::cover!(r.is_err(), "err reachable");
+    if r.is_ok() {
+        assert!(auth_s, "authority signed");
+        assert!(auth_key.to_bytes() == stored, "authority is config.fee_authority");
+        let (pda, _) = crate::common::pda::derive(&[b"fee_tier", cfg_key.as_ref(), &ix], &PID);
+        assert!(new_key == pda, "new account is the PDA of this config");
+    }
+    core::mem::forget(r);
+}
+
+/// initialize_adaptive_fee_tier: InitializeAdaptiveFeeTier::try_accounts (init through the CPI / PDA model) Ok => fee_authority signed, key == config.fee_authority, adaptive_fee_tier key == PDA(["fee_tier", config, fee_tier_index le]) of the passed config
+// @verif prop=C04,C15 tier=thorough timeout=900
+#[kani::proof]
+#[kani::unwind(40)]
+#[kani::stub(alloc::fmt::format, stub_format)]
+#[kani::stub(<anchor_lang::error::Error as core::convert::From<anchor_lang::error::ErrorCode>>::from, stub_err_from_anchor_code)]
+#[kani::stub(<anchor_lang::error::Error as core::convert::From<::whirlpool::errors::ErrorCode>>::from, stub_err_from_code)]
+#[kani::stub(<anchor_lang::prelude::Pubkey as core::fmt::Display>::fmt, stub_pubkey_display)]
+#[kani::stub(anchor_lang::error::Error::with_account_name, stub_with_account_name)]
+#[kani::stub(<anchor_lang::prelude::Rent as anchor_lang::solana_program::sysvar::Sysvar>::get, stub_rent_get)]
+#[kani::stub(anchor_lang::system_program::create_account, stub_sp_create_account)]
+#[kani::stub(anchor_lang::system_program::transfer, stub_sp_transfer)]
+#[kani::stub(anchor_lang::system_program::allocate, stub_sp_allocate)]
+#[kani::stub(anchor_lang::system_program::assign, stub_sp_assign)]
+#[kani::stub(anchor_lang::prelude::Pubkey::find_program_address, stub_find_program_address)]
+fn c04_initialize_adaptive_fee_tier() {
+    let mut cfg_d = config_data();
+    let stored = k32(&cfg_d, CFG_FEE_AUTH);
+    let mut new_d = [0u8; AdaptiveFeeTier::LEN];
+    let ix: [u8; 2] = kani::any();
+    let mut no_d = [0u8; 0];
+    let mut no_d2 = [0u8; 0];
+    let mut no_d3 = [0u8; 0];
+    acct!(cfg_ai, cfg_key, cfg_s, &mut cfg_d, PID);
+    acct!(new_ai, new_key, new_s, &mut new_d, any_key());
+    acct!(fund_ai, fund_key, fund_s, &mut no_d, any_key());
+    acct!(auth_ai, auth_key, auth_s, &mut no_d2, any_key());
+    acct_x!(sys_ai, sys_key, sys_s, &mut no_d3, any_key());
+    let accounts = [cfg_ai, new_ai, fund_ai, auth_ai, sys_ai];
+    let r = try_accounts!(InitializeAdaptiveFeeTier, accounts, &ix);
+    kani::cover!(r.is_ok(), "ok reachable");
+    kani::cover!(r.is_err(), "err reachable");
+    if r.is_ok() {
+        assert!(auth_s, "authority signed");
+        assert!(auth_key.to_bytes() == stored, "authority is config.fee_authority");
+        let (pda, _) = crate::common::pda::derive(&[b"fee_tier", cfg_key.as_ref(), &ix], &PID);
+        assert!(new_key == pda, "new account is the PDA of this config");
+    }
+    core::mem::forget(r);
+}
+
+/// initialize_config_extension: InitializeConfigExtension::try_accounts (init through the CPI / PDA model) Ok => fee_authority signed, key == config.fee_authority, config_extension key == PDA(["config_extension", config])
+// @verif prop=C04,C15 tier=thorough timeout=900
+#[kani::proof]
+#[kani::unwind(40)]
+#[kani::stub(alloc::fmt::format, stub_format)]
+#[kani::stub(<anchor_lang::error::Error as core::convert::From<anchor_lang::error::ErrorCode>>::from, stub_err_from_anchor_code)]
+#[kani::stub(<anchor_lang::error::Error as core::convert::From<::whirlpool::errors::ErrorCode>>::from, stub_err_from_code)]
+#[kani::stub(<anchor_lang::prelude::Pubkey as core::fmt::Display>::fmt, stub_pubkey_display)]
+#[kani::stub(anchor_lang::error::Error::with_account_name, stub_with_account_name)]
+#[kani::stub(<anchor_lang::prelude::Rent as anchor_lang::solana_program::sysvar::Sysvar>::get, stub_rent_get)]
+#[kani::stub(anchor_lang::system_program::create_account, stub_sp_create_account)]
+#[kani::stub(anchor_lang::system_program::transfer, stub_sp_transfer)]
+#[kani::stub(anchor_lang::system_program::allocate, stub_sp_allocate)]
+#[kani::stub(anchor_lang::system_program::assign, stub_sp_assign)]
+#[kani::stub(anchor_lang::prelude::Pubkey::find_program_address, stub_find_program_address)]
+fn c04_initialize_config_extension() {
+    let mut cfg_d = config_data();
+    let stored = k32(&cfg_d, CFG_FEE_AUTH);
+    let mut new_d = [0u8; WhirlpoolsConfigExtension::LEN];
+    let mut no_d = [0u8; 0];
+    let mut no_d2 = [0u8; 0];
+    let mut no_d3 = [0u8; 0];
+    acct!(cfg_ai, cfg_key, cfg_s, &mut cfg_d, PID);
+    acct!(new_ai, new_key, new_s, &mut new_d, any_key());
+    acct!(fund_ai, fund_key, fund_s, &mut no_d, any_key());
+    acct!(auth_ai, auth_key, auth_s, &mut no_d2, any_key());
+    acct_x!(sys_ai, sys_key, sys_s, &mut no_d3, any_key());
+    let accounts = [cfg_ai, new_ai, fund_ai, auth_ai, sys_ai];
+    let r = try_accounts!(InitializeConfigExtension, accounts, &[]);
+    kani::cover!(r.is_ok(), "ok reachable");
+    kani::cover!(r.is_err(), "err reachable");
+    if r.is_ok() {
+        assert!(auth_s, "authority signed");
+        assert!(auth_key.to_bytes() == stored, "authority is config.fee_authority");
+        let (pda, _) = crate::common::pda::derive(&[b"config_extension", cfg_key.as_ref()], &PID);
+        assert!(new_key == pda, "new account is the PDA of this config");
+    }
+    core::mem::forget(r);
+}
+
+/// serialized `Rent::default()` (bincode: u64 lamports_per_byte_year, f64 exemption_threshold, u8 burn_percent)
+fn rent_sysvar_data() -> [u8; 17] {
+    let mut d = [0u8; 17];
+    d[0..8].copy_from_slice(&3480u64.to_le_bytes());
+    d[8..16].copy_from_slice(&2.0f64.to_le_bytes());
+    d[16] = 50;
+    d
+}
+fn token_program_id() -> Pubkey {
+    if kani::any() {
+        anchor_spl::token::ID
+    } else {
+        anchor_spl::token_2022::ID
+    }
+}
+
+/// delete_token_badge: DeleteTokenBadge::try_accounts Ok => token_badge_authority signed, key == config_extension.token_badge_authority, extension and badge belong to config, badge key == PDA(["token_badge", config, mint]). Mint: 82 symbolic bytes owned by Token or Token-2022
+// @verif prop=C04,C15 tier=thorough timeout=900 large
+#[kani::proof]
+#[kani::unwind(40)]
+#[kani::stub(alloc::fmt::format, stub_format)]
+#[kani::stub(<anchor_lang::error::Error as core::convert::From<anchor_lang::error::ErrorCode>>::from, stub_err_from_anchor_code)]
+#[kani::stub(<anchor_lang::error::Error as core::convert::From<::whirlpool::errors::ErrorCode>>::from, stub_err_from_code)]
+#[kani::stub(<anchor_lang::prelude::Pubkey as core::fmt::Display>::fmt, stub_pubkey_display)]
+#[kani::stub(anchor_lang::error::Error::with_account_name, stub_with_account_name)]
+#[kani::stub(anchor_lang::prelude::Pubkey::find_program_address, stub_find_program_address)]
+fn c04_delete_token_badge() {
+    let mut cfg_d = config_data();
+    let mut ext_d = ext_data();
+    let ext_cfg = k32(&ext_d, EXT_CONFIG);
+    let stored = k32(&ext_d, EXT_TB_AUTH);
+    let mut mint_d: [u8; 82] = kani::any();
+    let mut tb_d = token_badge_data();
+    let tb_cfg = k32(&tb_d, TB_CONFIG);
+    let mut no_d = [0u8; 0];
+    let mut no_d2 = [0u8; 0];
+    acct!(cfg_ai, cfg_key, cfg_s, &mut cfg_d, PID);
+    acct!(ext_ai, ext_key, ext_s, &mut ext_d, PID);
+    acct!(auth_ai, auth_key, auth_s, &mut no_d, any_key());
+    acct!(mint_ai, mint_key, mint_s, &mut mint_d, token_program_id());
+    acct!(tb_ai, tb_key, tb_s, &mut tb_d, PID);
+    acct!(rcv_ai, rcv_key, rcv_s, &mut no_d2, any_key());
+    let accounts = [cfg_ai, ext_ai, auth_ai, mint_ai, tb_ai, rcv_ai];
+    let r = try_accounts!(DeleteTokenBadge, accounts, &[]);
+    kani::cover!(r.is_ok(), "ok reachable");
+    kani::cover!(r.is_err(), "err reachable");
+    if r.is_ok() {
+        assert!(auth_s, "authority signed");
+        assert!(auth_key.to_bytes() == stored, "authority is config_extension.token_badge_authority");
+        assert!(ext_cfg == cfg_key.to_bytes(), "config extension belongs to config");
+        assert!(tb_cfg == cfg_key.to_bytes(), "token badge belongs to config");
+        let (pda, _) = crate::common::pda::derive(&[b"token_badge", cfg_key.as_ref(), mint_key.as_ref()], &PID);
+        assert!(tb_key == pda, "token badge is the PDA of this config and mint");
+    }
+    core::mem::forget(r);
+}
+
+/// initialize_token_badge: InitializeTokenBadge::try_accounts (init through the CPI / PDA model) Ok => token_badge_authority signed, key == config_extension.token_badge_authority, extension belongs to config, badge key == PDA(["token_badge", config, mint])
+// @verif prop=C04,C15 tier=thorough timeout=900 large
+#[kani::proof]
+#[kani::unwind(40)]
+#[kani::stub(alloc::fmt::format, stub_format)]
+#[kani::stub(<anchor_lang::error::Error as core::convert::From<anchor_lang::error::ErrorCode>>::from, stub_err_from_anchor_code)]
+#[kani::stub(<anchor_lang::error::Error as core::convert::From<::whirlpool::errors::ErrorCode>>::from, stub_err_from_code)]
+#[kani::stub(<anchor_lang::prelude::Pubkey as core::fmt::Display>::fmt, stub_pubkey_display)]
+#[kani::stub(anchor_lang::error::Error::with_account_name, stub_with_account_name)]
+#[kani::stub(<anchor_lang::prelude::Rent as anchor_lang::solana_program::sysvar::Sysvar>::get, stub_rent_get)]
+#[kani::stub(anchor_lang::system_program::create_account, stub_sp_create_account)]
+#[kani::stub(anchor_lang::system_program::transfer, stub_sp_transfer)]
+#[kani::stub(anchor_lang::system_program::allocate, stub_sp_allocate)]
+#[kani::stub(anchor_lang::system_program::assign, stub_sp_assign)]
+#[kani::stub(anchor_lang::prelude::Pubkey::find_program_address, stub_find_program_address)]
+fn c04_initialize_token_badge() {
+    let mut cfg_d = config_data();
+    let mut ext_d = ext_data();
+    let ext_cfg = k32(&ext_d, EXT_CONFIG);
+    let stored = k32(&ext_d, EXT_TB_AUTH);
+    let mut mint_d: [u8; 82] = kani::any();
+    let mut tb_d = [0u8; TokenBadge::LEN];
+    let mut no_d = [0u8; 0];
+    let mut no_d2 = [0u8; 0];
+    let mut no_d3 = [0u8; 0];
+    acct!(cfg_ai, cfg_key, cfg_s, &mut cfg_d, PID);
+    acct!(ext_ai, ext_key, ext_s, &mut ext_d, PID);
+    acct!(auth_ai, auth_key, auth_s, &mut no_d, any_key());
+    acct!(mint_ai, mint_key, mint_s, &mut mint_d, token_program_id());
+    acct!(tb_ai, tb_key, tb_s, &mut tb_d, any_key());
+    acct!(fund_ai, fund_key, fund_s, &mut no_d2, any_key());
+    acct_x!(sys_ai, sys_key, sys_s, &mut no_d3, any_key());
+    let accounts = [cfg_ai, ext_ai, auth_ai, mint_ai, tb_ai, fund_ai, sys_ai];
+    let r = try_accounts!(InitializeTokenBadge, accounts, &[]);
+    kani::cover!(r.is_ok(), "ok reachable");
+    kani::cover!(r.is_err(), "err reachable");
+    if r.is_ok() {
+        assert!(auth_s, "authority signed");
+        assert!(auth_key.to_bytes() == stored, "authority is config_extension.token_badge_authority");
+        assert!(ext_cfg == cfg_key.to_bytes(), "config extension belongs to config");
+        let (pda, _) = crate::common::pda::derive(&[b"token_badge", cfg_key.as_ref(), mint_key.as_ref()], &PID);
+        assert!(tb_key == pda, "token badge is the PDA of this config and mint");
+    }
+    core::mem::forget(r);
+}
+
+/// initialize_reward_v2: InitializeRewardV2::try_accounts Ok => reward_authority signed and key == whirlpool.reward_authority(). Mint: 82 symbolic bytes owned by Token or Token-2022; token badge PDA through the ideal-hash model; rent sysvar account holds Rent::default()
+// @verif prop=C04 tier=thorough timeout=900 large
+#[kani::proof]
+#[kani::unwind(40)]
+#[kani::stub(alloc::fmt::format, stub_format)]
+#[kani::stub(<anchor_lang::error::Error as core::convert::From<anchor_lang::error::ErrorCode>>::from, stub_err_from_anchor_code)]
+#[kani::stub(<anchor_lang::error::Error as core::convert::From<::whirlpool::errors::ErrorCode>>::from, stub_err_from_code)]
+#[kani::stub(<anchor_lang::prelude::Pubkey as core::fmt::Display>::fmt, stub_pubkey_display)]
+#[kani::stub(anchor_lang::error::Error::with_account_name, stub_with_account_name)]
+#[kani::stub(anchor_lang::prelude::Pubkey::find_program_address, stub_find_program_address)]
+fn c04_initialize_reward_v2() {
+    let mut wp_d = whirlpool_data();
+    let stored = k32(&wp_d, WP_REWARD_AUTH);
+    let mut mint_d: [u8; 82] = kani::any();
+    let mut rent_d = rent_sysvar_data();
+    let mut no_d = [0u8; 0];
+    let mut no_d2 = [0u8; 0];
+    let mut no_d3 = [0u8; 0];
+    let mut no_d4 = [0u8; 0];
+    let mut no_d5 = [0u8; 0];
+    let mut no_d6 = [0u8; 0];
+    acct!(auth_ai, auth_key, auth_s, &mut no_d, any_key());
+    acct!(fund_ai, fund_key, fund_s, &mut no_d2, any_key());
+    acct!(wp_ai, wp_key, wp_s, &mut wp_d, PID);
+    acct!(mint_ai, mint_key, mint_s, &mut mint_d, token_program_id());
+    acct!(tb_ai, tb_key, tb_s, &mut no_d3, any_key());
+    acct!(va_ai, va_key, va_s, &mut no_d4, any_key());
+    acct_x!(tp_ai, tp_key, tp_s, &mut no_d5, any_key());
+    acct_x!(sys_ai, sys_key, sys_s, &mut no_d6, any_key());
+    acct!(rent_ai, rent_key, rent_s, &mut rent_d, any_key());
+    let accounts = [auth_ai, fund_ai, wp_ai, mint_ai, tb_ai, va_ai, tp_ai, sys_ai, rent_ai];
+    let r = try_accounts!(InitializeRewardV2, accounts, &[]);
+    kani::cover!(r.is_ok(), "ok reachable");
+    kani::cover!(r.is_err(), "err reachable");
+    if r.is_ok() {
+        assert!(auth_s, "authority signed");
+        assert!(auth_key.to_bytes() == stored, "authority is the whirlpool reward authority");
+    }
+    core::mem::forget(r);
+}
+
+/// migrate_repurpose_reward_authority_space is permissionless (no signer in its accounts struct): try_accounts + handler Ok =>
+/// no authority-guarded setting of the pool changed (config back-reference, fee rate, protocol fee rate, reward authority,
+/// reward mints / vaults).  Pools already migrated (reward_infos[2].extension == 0) are excluded: the handler panics, i.e. the
+/// transaction aborts, which Kani would report as a failure.
+// @verif prop=C04 tier=thorough timeout=900
+#[kani::proof]
+#[kani::unwind(40)]
+#[kani::stub(alloc::fmt::format, stub_format)]
+#[kani::stub(<anchor_lang::error::Error as core::convert::From<anchor_lang::error::ErrorCode>>::from, stub_err_from_anchor_code)]
+#[kani::stub(<anchor_lang::error::Error as core::convert::From<::whirlpool::errors::ErrorCode>>::from, stub_err_from_code)]
+#[kani::stub(<anchor_lang::prelude::Pubkey as core::fmt::Display>::fmt, stub_pubkey_display)]
+#[kani::stub(anchor_lang::error::Error::with_account_name, stub_with_account_name)]
+fn c04_migrate_repurpose_reward_authority_space() {
+    let mut wp_d = whirlpool_data();
+    let before = wp_d;
+    kani::assume(k32(&wp_d, WP_REWARD_AUTH + 2 * WP_REWARD_STRIDE) != [0u8; 32]);
+    acct!(wp_ai, wp_key, wp_s, &mut wp_d, PID);
+    let accounts = [wp_ai];
+    let mut slice: &[AccountInfo] = &accounts;
+    let mut bumps = <MigrateRepurposeRewardAuthoritySpace as anchor_lang::Bumps>::Bumps::default();
+    let mut reallocs = BTreeSet::new();
+    let r = <MigrateRepurposeRewardAuthoritySpace as anchor_lang::Accounts<'_, _>>::try_accounts(&PID, &mut slice, &[], &mut bumps, &mut reallocs);
+    kani::cover!(r.is_err(), "err reachable");
+    if let Ok(mut accs) = r {
+        let ctx = Context::new(&PID, &mut accs, &[], bumps);
+        let h = ::whirlpool::instructions::migrate_repurpose_reward_authority_space::handler(ctx);
+        kani::cover!(h.is_ok(), "ok reachable");
+        if h.is_ok() {
+            let w = &accs.whirlpool;
+            assert!(w.whirlpools_config.to_bytes() == k32(&before, WP_CONFIG), "config unchanged");
+            assert!(w.fee_rate.to_le_bytes() == [before[45], before[46]], "fee rate unchanged");
+            assert!(w.protocol_fee_rate.to_le_bytes() == [before[47], before[48]], "protocol fee rate unchanged");
+            assert!(w.reward_authority().to_bytes() == k32(&before, WP_REWARD_AUTH), "reward authority unchanged");
+            let mut i = 0;
+            while i < 3 {
+                assert!(w.reward_infos[i].mint.to_bytes() == k32(&before, WP_REWARD0_VAULT - 32 + i * WP_REWARD_STRIDE), "reward mint unchanged");
+                assert!(w.reward_infos[i].vault.to_bytes() == k32(&before, WP_REWARD0_VAULT + i * WP_REWARD_STRIDE), "reward vault unchanged");
+                i += 1;
+            }
+        }
+        core::mem::forget(h);
+        core::mem::forget(accs);
+    } else {
+        core::mem::forget(r);
+    }
+}
+
+/// initialize_pool_with_adaptive_fee: the predicate of its `initialize_pool_authority` constraint,
+/// AdaptiveFeeTier::is_valid_initialize_pool_authority(key) <=> stored authority is unset (permission-less tier) or == key,
+/// over all stored authorities and keys.  (The 16-account struct with two `init` PDAs is not run through try_accounts.)
+// @verif prop=C04 tier=quick timeout=300
+#[kani::proof]
+#[kani::unwind(40)]
+#[kani::stub(alloc::fmt::format, stub_format)]
+#[kani::stub(<anchor_lang::error::Error as core::convert::From<anchor_lang::error::ErrorCode>>::from, stub_err_from_anchor_code)]
+#[kani::stub(<anchor_lang::error::Error as core::convert::From<::whirlpool::errors::ErrorCode>>::from, stub_err_from_code)]
+#[kani::stub(<anchor_lang::prelude::Pubkey as core::fmt::Display>::fmt, stub_pubkey_display)]
+#[kani::stub(anchor_lang::error::Error::with_account_name, stub_with_account_name)]
+fn c04_initialize_pool_authority_rule() {
+    let stored = any_key();
+    let key = any_key();
+    let tier = AdaptiveFeeTier {
+        whirlpools_config: any_key(),
+        fee_tier_index: kani::any(),
+        tick_spacing: kani::any(),
+        initialize_pool_authority: stored,
+        delegated_fee_authority: any_key(),
+        default_base_fee_rate: kani::any(),
+        filter_period: kani::any(),
+        decay_period: kani::any(),
+        reduction_factor: kani::any(),
+        adaptive_fee_control_factor: kani::any(),
+        max_volatility_accumulator: kani::any(),
+        tick_group_size: kani::any(),
+        major_swap_threshold_ticks: kani::any(),
+    };
+    let ok = tier.is_valid_initialize_pool_authority(key);
+    kani::cover!(ok && stored != Pubkey::default(), "permissioned tier accepted");
+    kani::cover!(!ok, "rejected");
+    assert!(ok == (stored == Pubkey::default() || stored == key));
 }
